@@ -1017,6 +1017,24 @@ def check_pdb_conect_lookup(ctx, rid):
             looked_up = (isinstance(e, ast.Subscript) and isinstance(e.value, ast.Name) and e.value.id in tables) or (isinstance(e, ast.Call) and isinstance(e.func, ast.Attribute) and e.func.attr in ("index", "get") and isinstance(e.func.value, ast.Name) and e.func.value.id in tables)
             if not looked_up:
                 bad.append(src_of(e))
+        # an unknown serial number must not be dropped silently: a guard `if serial in table:` around the store whose
+        # other branch does not raise turns a dangling CONECT record into a missing bond
+        parents = {}
+        for a in ast.walk(f.node):
+            for c in ast.iter_child_nodes(a):
+                parents[c] = a
+        cur, skipped = n, None
+        while cur in parents and cur is not f.node:
+            par = parents[cur]
+            if isinstance(par, ast.If) and any(cur is x or any(cur is y for y in ast.walk(x)) for x in par.body):
+                member = any(isinstance(x, ast.Compare) and any(isinstance(o, ast.In) for o in x.ops) and any(isinstance(c, ast.Name) and c.id in tables for c in x.comparators) for x in ast.walk(par.test))
+                raises = bool(par.orelse) and isinstance(par.orelse[-1], ast.Raise)
+                if member and not raises:
+                    skipped = par
+            cur = par
+        if skipped is not None:
+            ctx.violate(rid, f"pdb.load_one stores a bond only `if {src_of(skipped.test)}`: a CONECT record naming an atom that is not in the frame is dropped silently instead of being reported (LoadError)", f, skipped, construct="CONECT store guarded by membership")
+            continue
         if bad:
             ctx.violate(rid, f"pdb.load_one stores the bond endpoints `{', '.join(bad)}` without looking the CONECT serial numbers up in a table of the atoms' serial numbers (columns 7-11): with a TER record or a numbering that does not start at 1 the bonds are attached to other atoms", f, n)
         else:
